@@ -61,13 +61,23 @@ fn test(c: &Case, st: &mut Stats) -> TestResult {
     st.eval();
     let spec = &c.0;
     let m = spec.materialise().map_err(|e| Fail::new("harness", e))?;
-    let mut b = match guard(|| spec.builder(&m)).map_err(|p| Fail::new("c03-panic", format!("builder panicked: {}", p)))? {
+    // half of the programs also observe the unfinished builder between additions (byte_len(),
+    // build(), clone().build()): read-only calls that must not change what is serialised in the end
+    let observe = if digest(spec) & 1 == 0 { 0 } else { digest(&(spec, "observe")) | 1 };
+    if observe != 0 {
+        st.class("program observes the unfinished builder between additions");
+    }
+    let mut b = match guard(|| spec.builder_observed(&m, observe)).map_err(|p| Fail::new("c03-panic", format!("builder panicked: {}", p)))? {
         Ok(b) => b,
         Err(_) => {
             st.class("builder refused an attribute (C11's business)");
             return Ok(());
         }
     };
+    if observe >> 62 & 1 == 1 {
+        let _ = guard(|| b.build());
+        let _ = b.byte_len();
+    }
     match guard(|| spec.seal_builder(&mut b)).map_err(|p| Fail::new("c03-panic", format!("sealing panicked: {}", p)))? {
         Ok(()) => {}
         Err(_) => {
